@@ -15,7 +15,9 @@ package dict
 //@   loop 1 invariant forall k K :: {$seen[k]} $seen[k] ==> (exists i int :: 0 <= i && i < len(res) && res[i] == k)
 //
 //@ func SortedKeys
+//@   pure c
 //@   ensures fresh(result)
+//@   ensures [C06] @sorted: forall a int, b int :: {result[a], result[b]} 0 <= a && a < b && b < len(result) ==> c(result[b], result[a]) != 0 - 1
 //@   ensures @keys: forall i int :: {result[i]} 0 <= i && i < len(result) ==> (result[i] in m)
 //@   ensures @all: forall k K :: {key(m, k)} (k in m) ==> (exists i int :: 0 <= i && i < len(result) && result[i] == k)
 //
@@ -28,6 +30,8 @@ package dict
 //@   loop 1 invariant forall k K :: {$seen[k]} $seen[k] ==> (exists i int :: 0 <= i && i < len(res) && res[i] == m[k])
 //
 //@ func SortedValues
+//@   pure c
 //@   ensures fresh(result)
+//@   ensures [C06] @sorted: forall a int, b int :: {result[a], result[b]} 0 <= a && a < b && b < len(result) ==> c(result[b], result[a]) != 0 - 1
 //@   ensures @values: forall i int :: {result[i]} 0 <= i && i < len(result) ==> (exists k K :: (k in m) && m[k] == result[i])
 //@   ensures @all: forall k K :: {key(m, k)} (k in m) ==> (exists i int :: 0 <= i && i < len(result) && result[i] == m[k])
